@@ -1,6 +1,7 @@
 package main
 
 import (
+	"bytes"
 	"errors"
 	"fmt"
 	"io"
@@ -8,6 +9,7 @@ import (
 	"strconv"
 	"strings"
 	"sync"
+	"time"
 
 	"github.com/folbricht/desync"
 )
@@ -135,7 +137,7 @@ func implIpOps(line string) string {
 		fh := desync.VerifNewIndexFileHandle(idx, store)
 		_ = fh
 		var out []string
-		var fuse *desync.VerifIndexFileHandle
+		var fuse *desync.VerifIndexMountHandle
 		for _, op := range strings.Split(a["ops"], ",") {
 			if op == "" {
 				continue
@@ -165,9 +167,14 @@ func implIpOps(line string) string {
 				}
 			case 'F':
 				// FUSE reads go through the same IndexPos in the model; use one handle sharing the store
+				// the handle comes from the file node's Open, the request goes through the node's Read
 				if fuse == nil {
-					fuse = &desync.VerifIndexFileHandle{}
-					*fuse = *desync.VerifNewIndexFileHandle(idx, store)
+					h, ok := desync.VerifNewIndexMountFile(idx, store).Open()
+					if !ok {
+						out = append(out, "f:open-error")
+						continue
+					}
+					fuse = h
 				}
 				f := strings.Split(op[1:], ":")
 				off, _ := strconv.ParseInt(f[0], 10, 64)
@@ -365,6 +372,101 @@ func runC09(cfg Config) {
 			}
 		}
 	}
+	// several handles opened on one mounted file, used at the same time: each request returns its own range of the blob
+	// whatever the others are doing — also when the store holds one handle's chunk back while another handle reads on
+	for it := 0; it < cfg.N(20, 300); it++ {
+		nch := 6 + rng.Intn(10)
+		var blob []byte
+		var idx desync.Index
+		gs := &gatedReadStore{data: map[desync.ChunkID][]byte{}, gate: make(chan struct{}), entered: make(chan struct{}, 4)}
+		for k := 0; k < nch; k++ {
+			b := randBytes(rng, 40+rng.Intn(100))
+			id := desync.Digest.Sum(b)
+			idx.Chunks = append(idx.Chunks, desync.IndexChunk{ID: id, Start: uint64(len(blob)), Size: uint64(len(b))})
+			gs.data[id] = b
+			blob = append(blob, b...)
+		}
+		idx.Index.ChunkSizeMax = 256
+		node := desync.VerifNewIndexMountFile(idx, gs)
+		hA, okA := node.Open()
+		hB, okB := node.Open()
+		if !okA || !okB {
+			continue
+		}
+		slow := rng.Intn(nch)
+		gs.slow = idx.Chunks[slow].ID
+		offA := int64(idx.Chunks[slow].Start) + int64(rng.Intn(int(idx.Chunks[slow].Size)))
+		lenA := 1 + rng.Intn(60)
+		resA := make(chan []byte, 1)
+		go func() {
+			b, ok := hA.Read(make([]byte, lenA), offA)
+			if !ok {
+				b = nil
+			}
+			resA <- b
+		}()
+		select {
+		case <-gs.entered:
+		case <-time.After(5 * time.Second):
+		}
+		caseLine := fmt.Sprintf("mount.two-handles it=%d chunks=%d slow-chunk=%d", it, nch, slow)
+		rep.Count(caseLine, true, "mount-two-handles")
+		// the other handle reads elsewhere meanwhile
+		for k := 0; k < 4; k++ {
+			other := rng.Intn(nch)
+			if other == slow {
+				continue
+			}
+			off := int64(idx.Chunks[other].Start)
+			n := int(idx.Chunks[other].Size)
+			b, ok := hB.Read(make([]byte, n), off)
+			if !ok || !bytes.Equal(b, blob[off:off+int64(n)]) {
+				monitor("a read on a second handle of the mounted file returned wrong data or failed while another handle was waiting for the store", caseLine, "")
+			}
+		}
+		close(gs.gate)
+		select {
+		case b := <-resA:
+			end := offA + int64(lenA)
+			if end > int64(len(blob)) {
+				end = int64(len(blob))
+			}
+			if b == nil || !bytes.Equal(b, blob[offA:end]) {
+				monitor(fmt.Sprintf("a read on one handle of the mounted file (offset %d, %d bytes) returned data that is not the blob's while another handle was in use", offA, lenA), caseLine, "")
+			}
+		case <-time.After(10 * time.Second):
+			monitor("a read on the mounted file did not return", caseLine, "")
+		}
+	}
 	c09CLI(cfg, rep, rng)
 	rep.Write(cfg.Out)
 }
+
+// gatedReadStore holds GetChunk of one chunk ID until the gate opens
+type gatedReadStore struct {
+	data    map[desync.ChunkID][]byte
+	slow    desync.ChunkID
+	gate    chan struct{}
+	entered chan struct{}
+}
+
+func (s *gatedReadStore) GetChunk(id desync.ChunkID) (*desync.Chunk, error) {
+	if id == s.slow {
+		select {
+		case s.entered <- struct{}{}:
+		default:
+		}
+		<-s.gate
+	}
+	b, ok := s.data[id]
+	if !ok {
+		return nil, desync.ChunkMissing{ID: id}
+	}
+	return desync.NewChunkWithID(id, b, false)
+}
+func (s *gatedReadStore) HasChunk(id desync.ChunkID) (bool, error) {
+	_, ok := s.data[id]
+	return ok, nil
+}
+func (s *gatedReadStore) Close() error   { return nil }
+func (s *gatedReadStore) String() string { return "gated-read" }
